@@ -32,16 +32,27 @@ def plain_unit(name, pkg, run, **kw):
     return u
 
 
+def fuzz_unit(name, pkg, target, seconds, **kw):
+    u = {"name": name, "pkg": pkg, "run": "^$", "kind": "fuzz", "fuzz": "^%s$" % target,
+         "fuzztime": {"thorough": seconds}, "tiers": ("thorough",),
+         "shards": {"quick": 1, "thorough": 1},
+         "timeout": {"quick": 300, "thorough": seconds + 900}}
+    u.update(kw)
+    return u
+
+
 PROPS = {
     "C04": {"units": [
         plain_unit("regress", "replay", "^TestRegressC04"),
         rapid_unit("plain", "replay", "^TestC04Plain$", 30000, 16 * 400000),
         rapid_unit("wrapping", "replay", "^TestC04Wrapped$", 30000, 16 * 400000),
+        fuzz_unit("fuzz", "replay", "FuzzC04", 90),
     ]},
     "C05": {"units": [
         plain_unit("regress", "replay", "^TestRegressC05"),
         rapid_unit("plain", "replay", "^TestC05Plain$", 30000, 16 * 400000),
         rapid_unit("wrapping", "replay", "^TestC05Wrapped$", 30000, 16 * 400000),
+        fuzz_unit("fuzz", "replay", "FuzzC05", 90),
     ]},
 }
 
@@ -50,6 +61,7 @@ PROPS["C06"] = {"units": [
     rapid_unit("sequential", "pktbuf", "^TestC06Sequential$", 3000, 16 * 40000, overlay="plain"),
     rapid_unit("concurrent-free", "pktbuf", "^TestC06Concurrent$", 1500, 16 * 20000, overlay="plain"),
     rapid_unit("schedules", "pktsched", "^TestC06Schedules$", 800, 16 * 8000, overlay="full"),
+    fuzz_unit("fuzz", "pktbuf", "FuzzC06C07", 90, overlay="plain"),
 ]}
 PROPS["C07"] = {"units": [
     plain_unit("regress", "pktbuf", "^TestRegressC07", overlay="plain"),
@@ -61,6 +73,7 @@ PROPS["C07"] = {"units": [
 PROPS["C20"] = {"units": [
     plain_unit("sweep", "xor", "^TestC20Sweep$", overlay="plain"),
     rapid_unit("rapid", "xor", "^TestC20Rapid$", 30000, 16 * 300000, overlay="plain"),
+    fuzz_unit("fuzz", "xor", "FuzzC20", 90, overlay="plain"),
 ]}
 
 PROPS["C09"] = {"units": [
